@@ -33,12 +33,13 @@ static void run_and_check(int rule, int form, int ctx, int shape, const act_exp_
 	CHECK("C06", (g_diag >= 1) == (ret == 0), "a diagnostic is delivered exactly when the error token is returned");
 	CHECK("C02", g_stdout_writes == 0, "nothing is written to standard output");
 	if (e->nappend >= 0) {
-		CHECK("C03", qstring_index == idx0 + (unsigned)e->nappend, "the action appends exactly as many bytes as the reference decoding has");
+		CHECK("C03,C05", qstring_index == idx0 + (unsigned)e->nappend, "the action appends exactly as many bytes as the reference decoding has");
 		if (qstring_index == idx0 + (unsigned)e->nappend)
 			for (int j = 0; j < TOKN + 1; j++)
-				if (j < e->nappend) CHECK("C03", (unsigned char)cfg_qstring[idx0 + j] == e->append[j], "the appended bytes are the reference decoding of the token text");
+				if (j < e->nappend) CHECK("C03,C05", (unsigned char)cfg_qstring[idx0 + j] == e->append[j], "the appended bytes are the reference decoding of the token text");
 		if (shape >= 1 && idx0 > 0) CHECK("C03,C02", cfg_qstring[keep_at] == keep, "bytes accumulated earlier are untouched");
 		CHECK("C02", qstring_index <= qstring_len && (cfg_qstring != NULL || qstring_len == 0), "the scratch buffer stays well-formed (write index within the allocation)");
+		CHECK("C02", cfg_qstring == NULL || __CPROVER_OBJECT_SIZE(cfg_qstring) >= qstring_len + 1, "the scratch buffer always has room for a terminating NUL beyond its nominal length (trimming and closing read and write that byte)");
 	}
 	if (ret != CFGV_CONTINUE && ret != 0 && ret != EOF) {
 		CHECK("C02", cfg_yylval != NULL, "a returned token carries a non-NULL text");
